@@ -29,8 +29,11 @@ type run struct {
 	boxes  map[string]bool   // name -> subscribed
 	remote map[string]string // connector-created: remote id -> name
 	delSub map[string]bool
-	broken string
-	nconn  int
+	// delSubID: remote id under which a deleted subscription was recorded (connector-created mailboxes only): gluon
+	// keys deleted subscriptions by remote id, and the subscription is void once a mailbox of that id exists again
+	delSubID map[string]string
+	broken   string
+	nconn    int
 }
 
 func init() { explore.Register("c14", New) }
@@ -46,7 +49,7 @@ func New(raw json.RawMessage) (explore.Run, error) {
 	if err != nil {
 		return nil, err
 	}
-	r := &run{p: p, w: w, boxes: map[string]bool{"INBOX": true}, remote: map[string]string{}, delSub: map[string]bool{}}
+	r := &run{p: p, w: w, boxes: map[string]bool{"INBOX": true}, remote: map[string]string{}, delSub: map[string]bool{}, delSubID: map[string]string{}}
 	for i := 0; i < 2; i++ {
 		s, err := w.Connect()
 		if err != nil {
@@ -156,6 +159,11 @@ func (r *run) Step(ev explore.Event) []explore.Violation {
 				apply = func() {
 					if r.boxes[n] {
 						r.delSub[n] = true
+						for id, name := range r.remote {
+							if name == n {
+								r.delSubID[n] = id
+							}
+						}
 					}
 					delete(r.boxes, n)
 				}
@@ -255,6 +263,12 @@ func (r *run) Step(ev explore.Event) []explore.Violation {
 					r.boxes[r.canonName(name)] = true
 					r.remote[sp.Mbox] = r.canonName(name)
 					delete(r.delSub, name)
+					for n, id := range r.delSubID {
+						if id == sp.Mbox {
+							delete(r.delSub, n) // the remote mailbox is back: its deleted subscription is void
+							delete(r.delSubID, n)
+						}
+					}
 				}
 			}
 		case "MailboxUpdated":
@@ -462,7 +476,14 @@ func (r *run) Canon() string {
 		rm = append(rm, id+"="+n)
 	}
 	sort.Strings(rm)
-	return fmt.Sprintf("%s | model %s | remote %v", b.String(), r.render(), rm)
+	var ds []string
+	for n, id := range r.delSubID {
+		if r.delSub[n] {
+			ds = append(ds, n+"@"+id)
+		}
+	}
+	sort.Strings(ds)
+	return fmt.Sprintf("%s | model %s | remote %v | delsub-ids %v", b.String(), r.render(), rm, ds)
 }
 
 // ---------------------------------------------------------------------------------------------------------------
